@@ -347,6 +347,10 @@ def step (s : Sess) (line : String) : String × Sess :=
     match parseBS s bs with
     | some b => (s!"{digest b} | -", s)
     | none => bad
+  | ["pause", ms] =>
+    match ms.toNat? with
+    | some _ => ("ok | -", s)
+    | none => bad
   | ["setreg", reg, bs] =>
     match reg.toNat?, parseBS s bs with
     | some r, some b => (s!"ok {b.length} | -", { s with regs := assocSet s.regs r ⟨b, b.length⟩ })
